@@ -50,10 +50,14 @@ structure Sys where
   H : List Chunk → Hash
   staging : Path → Bool
   tmpOf : Pid → Path → Path
-  cname : Path → Hash → Path
+  cname : (Path → Option (List Chunk)) → Path → Hash → Path   -- the conflict-copy name, chosen by looking at what clients can see (D13 repair)
   req : Pid → Req
 
 def upd {α} (f : Nat → α) (k : Nat) (v : α) : Nat → α := fun x => if x = k then v else f x
+
+/-- what clients can observe: non-staging paths and their complete contents -/
+def view (S : Sys) (s : State) : Path → Option (List Chunk) :=
+  fun p => if S.staging p then none else (s.dir p).map s.ino
 
 inductive Step (S : Sys) : State → State → Prop
   | createFresh (s i) (h : s.pc i = .start) (hn : s.dir (S.tmpOf i (S.req i).dst) = none) :
@@ -79,7 +83,7 @@ inductive Step (S : Sys) : State → State → Prop
                                   (S.tmpOf i (S.req i).dst) none,
                         pc := upd s.pc i .renamed }
   | conflict (s i fd cur) (h : s.pc i = .decided fd cur) (hc : cur ≠ (S.req i).expected) :
-      Step S s { s with dir := upd (upd s.dir (S.cname (S.req i).dst (S.req i).declared)
+      Step S s { s with dir := upd (upd s.dir (S.cname (view S s) (S.req i).dst (S.req i).declared)
                                     (s.dir (S.tmpOf i (S.req i).dst)))
                                   (S.tmpOf i (S.req i).dst) none,
                         pc := upd s.pc i .renamed }
